@@ -786,11 +786,14 @@ class Manager:
         if not self.running:
             return
 
-        # queue `stopped` before the flag is cleared: a loop running in another
-        # thread must not be able to leave run() in between
-        self.fire(stopped(self))
+        # For a loop running in another thread, queueing `stopped` and clearing
+        # the flag are one step: it decides under this lock whether it may wait
+        # for events (it must not, once stopped), and it must neither leave
+        # run() nor go back to sleep in between.
+        with self.root._lock:
+            self.fire(stopped(self))
 
-        self._running = False
+            self._running = False
 
         if self.root._executing_thread is None:
             for _ in range(3):
